@@ -43,12 +43,21 @@ func readFile(delegate DecoderDelegate, expectedSetID *recoverySetID, fileBytes 
 	recoveryPackets := make(map[exponent]recoveryPacket)
 	unknownPackets := make(map[packetType][][]byte)
 	for {
+		remaining := buf.Bytes()
 		packetSetID, packetType, body, err := readNextPacket(buf)
 		if err == io.EOF {
 			break
 		} else if err != nil {
-			// TODO: Relax this check.
-			return recoverySetID{}, file{}, err
+			// A damaged packet (bad magic or length, truncated
+			// body, hash mismatch) must not make the intact
+			// packets after it unusable: skip to the next
+			// magic sequence after the start of this packet.
+			next := bytes.Index(remaining[1:], expectedMagic[:])
+			if next < 0 {
+				break
+			}
+			buf = bytes.NewBuffer(remaining[1+next:])
+			continue
 		}
 		if hasSetID {
 			if packetSetID != setID {
